@@ -35,6 +35,8 @@ the `let`s and assignments whose bound local occurs in a guard of a step — dir
 the initialiser, initialiser skeleton (`op= value` for an assignment), enclosing guards⟩, in source order.  The exact
 pins compare it (`<fn>.lets = pin_lets_<fn>`), the semantic modules its callee names (`<fn>_guard_inputs`).  So
 `let weight = weight_by_iok(0, $3, $4); if weight > max { Err }` with swapped arguments now breaks the pin.
+Phase 5: the guards of ASSIGNMENTS to locals seed the closure too (unit functions that drive a loop by flags, e.g.
+`Chain::check_orphans`), and the area `ChainApi` reads 13 methods of `impl Chain` in chain/src/chain.rs.
 
 WHAT IS TRUSTED / NOT SEEN.  This is a syntactic reading, not a Rust front end: it does not know types (a discarded
 call is reported whether or not it returns a `Result`), does not expand macros, does not follow calls (each callee
@@ -59,6 +61,7 @@ UTXO = "chain/src/txhashset/utxo_view.rs"
 TXH = "chain/src/txhashset/txhashset.rs"
 TPOOL = "pool/src/transaction_pool.rs"
 POOL = "pool/src/pool.rs"
+CHAINRS = "chain/src/chain.rs"
 
 # (area, file, impl type | None, trait | None, fn, lean name)
 TARGETS = [
@@ -79,6 +82,12 @@ TARGETS = [
         "validate_roots", "validate_sizes", "validate_mmrs", "validate", "validate_kernel_sums")
 ] + [
     ("Chain", TXH, "HeaderExtension", None, f, "hext_" + f) for f in ("apply_header", "rewind", "validate_root")
+] + [
+    # phase 5: the public API of `Chain` around the pipeline (orphans, known blocks, head resets, pool-side gates)
+    ("ChainApi", CHAINRS, "Chain", None, f, "chain_" + f) for f in (
+        "process_block", "is_known", "check_orphan", "process_block_single", "process_block_header",
+        "sync_block_headers", "check_orphans", "reset_chain_head", "validate_tx", "verify_coinbase_maturity",
+        "verify_tx_lock_height", "set_txhashset_roots", "compact")
 ] + [
     ("Core", BLOCK, "Block", None, f, "block_" + f) for f in (
         "validate_read", "validate", "verify_coinbase", "verify_kernel_lock_heights",
@@ -597,6 +606,7 @@ def shape_of(toks, item):
 
 
 _LOCAL = __import__("re").compile(r"\$\d+")
+_ASSIGN = __import__("re").compile(r"(=|\+=|-=|\*=|/=|%=|<<=|>>=|\|=|&=|\^=) ")
 
 
 def guard_lets(steps, lets):
@@ -607,6 +617,12 @@ def guard_lets(steps, lets):
     for _, _, _, _, guards in steps:
         for g in guards:
             need.update(_LOCAL.findall(g))
+    # phase 5: the guards of ASSIGNMENTS to locals count as well (a unit function that drives a loop by flags, e.g.
+    # `Chain::check_orphans`: `if res.is_ok() { orphan_accepted = true }` … `if orphan_accepted { continue }`)
+    for vs, _, init, guards in lets:
+        if _ASSIGN.match(init):
+            for g in guards:
+                need.update(_LOCAL.findall(g))
     keep = [False] * len(lets)
     changed = True
     while changed:
